@@ -33,3 +33,12 @@ Definition accept_C12_species (c : sp_obj * usys) (o : jv * list (jv * jv)) : ve
   (jv_eqb (model_write s) written
    && forallb (fun io : jv * jv => match model_read parent (fst io) with Ok s' => jv_eqb (model_write s') (snd io) | Err => false end) variants,
    S (length variants)).
+
+Definition re_obj := reaction_obj str.
+Definition model_write_r (r : re_obj) : jv := write_reaction str (fun t => t) wr12 r.
+Definition model_read_r (parent : usys) (v : jv) : res re_obj := read_reaction str (fun t => Some t) [48%N; 46%N; 48%N] parent v.
+Definition accept_C12_reaction (c : re_obj * usys) (o : jv * list (jv * jv)) : verdict :=
+  let '(r, parent) := c in let '(written, variants) := o in
+  (jv_eqb (model_write_r r) written
+   && forallb (fun io : jv * jv => match model_read_r parent (fst io) with Ok r' => jv_eqb (model_write_r r') (snd io) | Err => false end) variants,
+   S (length variants)).
